@@ -190,7 +190,7 @@ def inject(rng, text):
         return add("%s = 2;" % w), "ConstantAssigned", w, kind
     if kind == "const_reads_wire":
         w = rng.choice(wires + ["P_pc", "pc", "i10bytes"]) if wires else "pc"
-        exp = "NonConstantWireRead" if not re.match(r"^[A-Z]_", w) else "UndeclaredWireRead"
+        exp = "NonConstantWireRead" if not (len(w) > 1 and w[0].isupper() and w[1] == "_") else "UndeclaredWireRead"
         return add("const KK9 = (%s == 0);" % w), exp, w, kind
     if kind == "default_reads_wire":
         w = rng.choice(wires + ["pc"]) if wires else "pc"
